@@ -320,3 +320,10 @@ def has_unknown(m):
             elif has_unknown(v):
                 return True
     return False
+
+
+def py_method(rpc_name):
+    """Client method name of an RPC: snake_case, '_' appended for Python keywords."""
+    import keyword
+    n = snake(rpc_name)
+    return n + "_" if keyword.iskeyword(n) else n
